@@ -12,7 +12,7 @@ pub const PROBS: [f64; 8] = [1e-3, 0.1, 0.5, 0.683, 0.9, 0.95, 0.99, 0.999];
 pub const BAD_PROBS: [f64; 6] = [0.0, 1.0, -1.0, 2.0, f64::NAN, f64::INFINITY];
 
 pub fn stats_case<T: Sc>(rng: &mut Rng, idx: usize, thorough: bool) -> FitCase<T> {
-    let o = GenOpts { max_m: 3, max_p: 3, max_n: 12, max_s: 1, allow_dup: false, smooth_only: idx % 8 != 7 };
+    let o = GenOpts { max_m: 3, max_p: 3, max_n: 12, max_s: 1, allow_dup: false, smooth_only: idx % 8 != 7, fixed_n: None };
     let mut recipe = random_recipe(rng, &o);
     let total = recipe.m() + recipe.p();
     let deltas: [i64; 12] = [-2, -1, 0, 1, 1, 2, 2, 3, 5, 8, 20, 3];
